@@ -88,11 +88,14 @@ var sweepRoots = map[string][]string{
 
 type SweepClaims struct {
 	// property -> function -> list of claimed safety obligation names (those that discharge on the unchanged tree)
-	Clean map[string]map[string][]string `json:"clean"`
+	Clean    map[string]map[string][]string `json:"clean,omitempty"`
+	// property -> function -> obligations that do not discharge on the unchanged tree because of imprecision of the
+	// contracts written so far; they are skipped, reported as unverified, and never counted as proved.
+	Unproven map[string]map[string][]string `json:"unproven"`
 }
 
 func loadSweepClaims() *SweepClaims {
-	sc := &SweepClaims{Clean: map[string]map[string][]string{}}
+	sc := &SweepClaims{Clean: map[string]map[string][]string{}, Unproven: map[string]map[string][]string{}}
 	data, err := os.ReadFile(filepath.Join(verifDir(), "sweep_claims.json"))
 	if err == nil {
 		json.Unmarshal(data, sc)
